@@ -82,4 +82,8 @@ for i in (1, 2, 3):
     w.write_board_result('e', 's', datetime.date(2020, 1, 1), i, 'w', 'n', 'e', 's', Player.N, deal, Scoring.IMP, c, 7)
 games = PbnParser().parse_all(io.StringIO(buf.getvalue()))
 print('F6', 'ok: 3 games' if [g.get('Board') for g in games] == ['1', '2', '3'] else 'DEFECT: %d game(s) read back from 3 results' % len(games))
+
+# F8: whitespace inside a quoted value
+bs = PbnParser().parse_board_settings(io.StringIO('[Board "A  1"]\n[Dealer "N"]\n[Vulnerable "None"]\n[Deal "%s"]\n' % deal.to_pbn()))
+print('F8', 'ok' if bs[0].board_id == 'A  1' else 'DEFECT: board id %r read back as %r' % ('A  1', bs[0].board_id))
 os._exit(0)
